@@ -21,6 +21,7 @@
 
 import sys
 import ast
+import threading
 import collections
 import functools
 import types
@@ -459,7 +460,32 @@ class cleanup_functools_wrapper(object):
             setattr(self.func, attr, val)
 
 
+_being_examined = threading.local()
+
+
 def autoforwards_function(func, args, kwargs):
+    try:
+        examined = _being_examined.funcs
+    except AttributeError:
+        examined = _being_examined.funcs = []
+    key = (
+        id(func),
+        tuple(None if isinstance(a, Unknown) else id(a) for a in args),
+        tuple(sorted(
+            (k, None if isinstance(a, Unknown) else id(a))
+            for k, a in kwargs.items())),
+        )
+    if key in examined:
+        # func forwards to itself, directly or through other functions
+        raise UnknownForwards
+    examined.append(key)
+    try:
+        return _autoforwards_function(func, args, kwargs)
+    finally:
+        examined.pop()
+
+
+def _autoforwards_function(func, args, kwargs):
     with cleanup_functools_wrapper(func):
         try:
             sig = _signatures.signature(func)
